@@ -306,7 +306,22 @@ pub fn eval_comptime_blocks<'a>(
                 let comptime =
                     unsafe { mem::transmute::<*const u8, fn(*mut u8) -> *mut u8>(code_ptr) };
 
-                comptime(raw);
+                let returned = comptime(raw);
+
+                if matches!(return_ty.absolute_ty(), Ty::String) {
+                    // a `str` is not an aggregate, so nothing is written to `raw`. what comes
+                    // back is the address of the text inside the memory of the JIT, which is
+                    // freed below. the text itself is the result
+                    let text = unsafe {
+                        std::ffi::CStr::from_ptr(returned as *const std::ffi::c_char)
+                            .to_bytes_with_nul()
+                            .to_vec()
+                    };
+                    unsafe { std::alloc::dealloc(raw, layout) };
+
+                    results.insert(ctc, ComptimeResult::Data(text.into_boxed_slice()));
+                    continue;
+                }
 
                 let bytes = unsafe {
                     let slice = std::ptr::slice_from_raw_parts(raw, return_ty.size() as usize)
